@@ -559,8 +559,7 @@ PROPS["C07"]["not_decided"] = ["ctx_new()/ctx_dtor() internals", "that m_map_ite
 PROPS["C08"]["level_text"] += (" recv_events() (real ctx.c, bounded batch): with a pill at any position exactly the messages queued before it are delivered, in order, then the recipient is stopped once, "
                                "and nothing behind the pill is read; process_ps() takes exactly the head of the module's own pipe.")
 PROPS["C08"]["not_decided"] = ["pill handling for batches of more than 3 messages (bounded stand-in; the per-message step is the same)", "batching + poison pill interplay (C02 lets batched messages be discarded)"]
-U("ps.subscribe", src="units/ps_unit.c", harness="h_subscribe", enforce="m_mod_ps_subscribe", defines=["V_SUBSCRIBE_UNIT", "V_OWN_M_MAP_REMOVE"], logctx="CORE",
-  replace=["m_ctx", "m_mod_is", "fetch_ms", "v_regcomp", "m_map_new", "m_map_get", "m_map_remove", "m_mem_new", "mem_strdup", "m_map_put"],
-  props=["C09", "C13", "C04"], contract_files=SUBSC, native=False, timeout=300, min_obligations=30)
+# (a contract-instrumented unit for m_mod_ps_subscribe -- contracts kept in subs.contracts.h under V_SUBSCRIBE_UNIT -- ran out of memory: the destructor function pointers of the real
+# reference-counting code make m_mem_unref/mem_dtor mutually recursive for CBMC; the registered unit is the real-code one, ps.subscribe_real, with recursion unwound 3 deep)
 U("ps.subscribe_real", src="units/ps_real.c", harness="h_subscribe_real", plain=True, logctx="CORE", replace_calls={"memcpy": "v_memcpy_regex"},
   props=["C09", "C04"], contract_files=[], native=True, timeout=600, min_obligations=20, unwind=3, unwindset={"v_was_freed.0": 8, "v_strncmp.0": 12, "v_strlen.0": 12, "v_base_init.0": 8, "v_inputs_init.0": 8})
